@@ -103,7 +103,9 @@ def cases(draw):
 
 huge_cases = st.fixed_dictionaries({"kind": st.just("huge"), "mib": st.sampled_from([8, 16, 32, 64]), "fill": st.sampled_from(["zeros", "periodic"]),
                                     "enc": st.sampled_from(jweplan.ENCS), "ser": st.sampled_from(["compact", "flattened"]), "seed": st.integers(0, 1000),
-                                    "framing": st.sampled_from(["raw", "zlib"])})
+                                    # zlib-1 / zlib-9: zlib framing with a non-default header (78 01 / 78 da): outside what must be accepted,
+                                    # but whatever the library does with it stays within the memory bound
+                                    "framing": st.sampled_from(["raw", "zlib", "zlib-1", "zlib-9"])})
 
 
 def _keys(enc, alg):
@@ -157,7 +159,7 @@ def judge(c, tok, jk, n, expected_plain, f, tag):
             how = "TRUNCATED to" if len(got) < n else "returned in full,"
             f[f"C17:over-limit-not-refused:{tag}:{'truncated' if len(got) < n else 'full'}"] = \
                 f"stream expanding to {n} octets ({c.get('cls', c.get('fill'))}) was {how} {len(got)} octets instead of raising ExceededSizeError"
-        elif not isinstance(err, ExceededSizeError):
+        elif not isinstance(err, ExceededSizeError) and not str(c.get("framing", "")).startswith("zlib-"):
             f[f"C17:over-limit-wrong-error:{tag}:{type(err).__name__}"] = f"{n} octets: {type(err).__name__}: {err}"
 
 
@@ -167,7 +169,7 @@ def run_case(c) -> dict:
     if c["kind"] == "huge":
         total = c["mib"] << 20
         wbits = -15 if c["framing"] == "raw" else 15
-        co = zlib.compressobj(6, zlib.DEFLATED, wbits)
+        co = zlib.compressobj({"zlib-1": 1, "zlib-9": 9}.get(c["framing"], 6), zlib.DEFLATED, wbits)
         chunk = bytes(1 << 20) if c["fill"] == "zeros" else (bytes(range(256)) * 4096)
         parts = [co.compress(chunk) for _ in range(c["mib"])]
         parts.append(co.flush())
@@ -260,7 +262,7 @@ def run_shard(ctx, spec):
         if ctx.tier == "thorough":
             strat = st.fixed_dictionaries({"kind": st.just("huge"), "mib": st.sampled_from([64, 128, 256, 512]), "fill": st.sampled_from(["zeros", "periodic"]),
                                            "enc": st.sampled_from(jweplan.ENCS), "ser": st.sampled_from(["compact", "flattened"]), "seed": st.integers(0, 1000),
-                                           "framing": st.sampled_from(["raw", "zlib"])})
+                                           "framing": st.sampled_from(["raw", "zlib", "zlib-1", "zlib-9"])})
         else:
             strat = huge_cases
         drive(ctx, "huge", strat, body, 40 if ctx.tier == "quick" else 120)
